@@ -991,6 +991,7 @@ class Models:
         probe.assume(z3.And(ip >= 0, ip < lenfn(probe)))
         ekind = None
         refable = False
+        opaque_elts = False
         for (s1, c1, p1) in eng.assign(g.target, elemfn(probe, ip), probe):
             if c1 != NEXT:
                 continue
@@ -1003,6 +1004,8 @@ class Models:
                         if isinstance(v, Raise):
                             continue
                         k, _ = eng.elem_term(v, s3)
+                        if k is None:
+                            opaque_elts = True
                         ekind = ekind or k
                         refable = refable or (
                             isinstance(itv, VRefSeq) and itv.idx is None and
@@ -1012,6 +1015,9 @@ class Models:
         if fuse in ('any', 'all'):
             ekind = 'bool'
         if ekind is None:
+            if not invs and opaque_elts:
+                # elements the model does not interpret (message material)
+                return [(st, VOpaque('list of uninterpreted values'))]
             if not invs:
                 # nothing is ever produced on a feasible path
                 ekind = 'str'
